@@ -28,6 +28,7 @@ type genState struct {
 	nfiles int
 	hot    bool
 	wrote  bool
+	fail   bool // this case injects failing snapshot attempts
 }
 
 func (g *genState) emit(s string) { g.ops = append(g.ops, s) }
@@ -175,6 +176,10 @@ func (g *genState) op() {
 			g.read()
 			return
 		}
+		if g.fail && g.phase == 0 && r.Chance(0.45) {
+			g.emit("snapfail")
+			return
+		}
 		g.emit("snap")
 		if g.phase == 0 {
 			g.snapshotDone()
@@ -212,7 +217,7 @@ func (g *genState) op() {
 			}
 		case crash && x >= 96:
 			g.crashOp()
-		case g.prop == "c03" && x >= 97:
+		case g.prop == "c03" && x >= 97 && !g.fail:
 			g.restartOp()
 		default:
 			g.read()
@@ -297,6 +302,9 @@ func newGenState(r *h.Rand, prop string) *genState {
 	if r.Chance(0.15) {
 		g.times = append(g.times, minNano, maxNano)
 	}
+	// failing snapshot attempts: C01 (abs-preserving) and C02 (the retry loses WAL data);
+	// C03 cases have them only when they have no restarts
+	g.fail = r.Chance(0.25)
 	return g
 }
 
@@ -343,8 +351,11 @@ func fixedCases(prop string) [][]string {
 				"w 0:0:2:9", "r 0 0 " + all + " 1"},
 		)
 	}
+	cs = append(cs, []string{"w 0:0:1:1", "snapfail", "r 0 0 0 1000 1", "w 0:0:2:2,0:0:1:5", "snapfail", "r 0 0 0 1000 0", "snap", "files", "r 0 0 0 1000 1"})
 	if prop == "c02" {
 		cs = append(cs,
+			// F18: a write between a failed snapshot attempt and its retry is lost by a crash after the retry
+			[]string{"w 0:0:1:1", "snapfail", "w 0:0:2:2", "snap", "crash clean", "r 0 0 0 1000 1"},
 			[]string{"w 0:0:1:1", "w 0:0:2:2", "crash 500", "r 0 0 0 1000 1", "w 0:0:3:3", "r 0 0 0 1000 1", "crash clean", "r 0 0 0 1000 1"},
 			[]string{"w 0:0:1:1", "snap", "w 0:0:1:2", "snap", "ccrash full 0 1 replace.afterRename 1", "r 0 0 0 1000 1", "files"},
 			[]string{"w 0:0:1:1", "snap", "w 0:0:1:2", "snap", "ccrash lf 0 1 replace.afterRemoveOld 1", "r 0 0 0 1000 1", "files"},
